@@ -12,6 +12,7 @@ import (
 	"os"
 	"path/filepath"
 	"sort"
+	"strconv"
 	"strings"
 	"testing"
 	"time"
@@ -43,8 +44,11 @@ func newSchedGen(rng *zzverif.Rng) *schedGen {
 		g.nReqs = 1
 	}
 	mr := []int{0, 1, 1, 2, 2, 3}
-	if g.nModels >= 2 {
-		mr = []int{0, 1, 1, 1, 2, 2, 2, 3} // more often fewer slots than models: evictions
+	if g.nModels == 2 {
+		mr = []int{0, 1, 1, 1, 2, 2, 3} // more often fewer slots than models: evictions
+	}
+	if g.nModels == 3 {
+		mr = []int{0, 1, 1, 2, 2, 2, 2, 3} // two slots, three models: evictions with a choice of victims
 	}
 	g.cfg = schedCfg{
 		maxRunners: mr[rng.Intn(len(mr))],
@@ -56,7 +60,41 @@ func newSchedGen(rng *zzverif.Rng) *schedGen {
 	if g.cfg.cpu == 0 {
 		g.cfg.ngpus = rng.Range(1, 2)
 	}
-	g.budget = 6 + 6*g.nReqs + rng.Intn(8)
+	// VERIF_SCHED_CFG="<maxRunners> <maxQueue> <defaultSession> <cpu> <ngpus>" pins configuration fields (`-` = random)
+	if f := strings.Fields(os.Getenv("VERIF_SCHED_CFG")); len(f) == 5 {
+		for i, p := range []*int{&g.cfg.maxRunners, &g.cfg.maxQueue, &g.cfg.defSess, &g.cfg.cpu, &g.cfg.ngpus} {
+			if v, err := strconv.Atoi(f[i]); err == nil {
+				*p = v
+			}
+		}
+		if g.cfg.cpu == 1 {
+			g.cfg.ngpus = 1
+		}
+	}
+	// directed openings (the random walk reaches these states too rarely); the walk continues after them
+	switch rng.Intn(12) {
+	case 0: // two slots, three models, one loaded runner idle and one busy: the victim must be the idle one
+		g.nModels, g.cfg.maxRunners = 3, 2
+		g.nReqs = max(g.nReqs, 4)
+		a, b := rng.Intn(3), 0
+		for b = rng.Intn(3); b == a; b = rng.Intn(3) {
+		}
+		sa, sb := zzverif.Pick(rng, []string{"S", "L", "L"}), zzverif.Pick(rng, []string{"S", "L", "L"})
+		g.forced = []schedEv{{kind: "submit", a: a, sess: sa}, {kind: "loaddone", a: 0, b: 1},
+			{kind: "submit", a: b, sess: sb}, {kind: "loaddone", a: 1, b: 1}, {kind: "done", a: rng.Intn(2)}}
+		if rng.Chance(1, 3) {
+			g.forced = append(g.forced, schedEv{kind: "advance", a: 20})
+		}
+		g.forced = append(g.forced, schedEv{kind: "submit", a: 3 - a - b, sess: g.sess()})
+		g.tags["open_victim_choice"]++
+	case 1: // the F12 window: the keep-alive of the idle runner runs out exactly when (or just before/after) a request arrives
+		g.nReqs = max(g.nReqs, 3)
+		adv := []int{50, 50, 49, 51, 40}[rng.Intn(5)]
+		g.forced = []schedEv{{kind: "submit", a: 0, sess: "S"}, {kind: "loaddone", a: 0, b: 1}, {kind: "done", a: 0},
+			{kind: "advance", a: adv}, {kind: "submit", a: 0, b: rng.Intn(2), sess: g.sess()}}
+		g.tags["open_expiry_window"]++
+	}
+	g.budget = 6 + 6*g.nReqs + rng.Intn(8) + len(g.forced)
 	g.wantDrain = rng.Chance(17, 20)
 	return g
 }
@@ -245,7 +283,11 @@ func (g *schedGen) mainEvent(r *schedRun) (schedEv, bool) {
 						}
 					}
 					if len(ms) > 0 {
-						add(5, "done_then_evict_idle", schedEv{kind: "done", a: q.id}, g.submitFor(r, zzverif.Pick(g.rng, ms), true))
+						w := 5
+						if len(r.prev.loaded) >= 2 {
+							w = 25 // the other loaded runners stay busy or idle: a choice of victims
+						}
+						add(w, "done_then_evict_idle", schedEv{kind: "done", a: q.id}, g.submitFor(r, zzverif.Pick(g.rng, ms), true))
 					}
 				}
 			}
@@ -498,16 +540,19 @@ func schedShrinkAll(t *testing.T, dir string, recs []schedRec) {
 // witness corpus (F12): hand-written scripts, found by experiment on the pinned tree
 
 // Both scripts use only the natural duplicate-expired path (no explicit unload, no yield point):
-//   two clients ask for model 0; the load fails (`loaddone 0 0`, e.g. the first client went away); the load goroutine
-//   sends expired(r0) and releases refMu; processPending, parked in needsReload for the second request, takes the lock
-//   first and hands the FAILED runner r0 to request 1 (refCount 1); the expired handler finds refCount > 0 and starts the
-//   10 ms re-queue loop.  A request with other options makes r0 expire as soon as request 1 is done (finish event ->
-//   expired -> unload, runner r1 is loaded for the same path), and 10 ms later the re-queuer delivers a SECOND expired
-//   event for r0, whose handler runs `delete(s.loaded, r0.modelPath)` and thereby removes the NEW runner r1 from
-//   `loaded` while r1 is live and in use.  The next request loads r2: two live runners for one model; finish events are
-//   keyed by path, so `done` of r1's user decrements r2: r2 is closed under its user (witness 1) or its count wraps
-//   and neither r1 nor r2 is ever closed (witness 2).
-// Expected on the pinned tree: the L2 kinds listed; expected after the delete-by-identity guard: none.
+//
+//	two clients ask for model 0; the load fails (`loaddone 0 0`, e.g. the first client went away); the load goroutine
+//	sends expired(r0) and releases refMu; processPending, parked in needsReload for the second request, takes the lock
+//	first and hands the FAILED runner r0 to request 1 (refCount 1); the expired handler finds refCount > 0 and starts the
+//	10 ms re-queue loop.  A request with other options makes r0 expire as soon as request 1 is done (finish event ->
+//	expired -> unload, runner r1 is loaded for the same path), and 10 ms later the re-queuer delivers a SECOND expired
+//	event for r0, whose handler runs `delete(s.loaded, r0.modelPath)` and thereby removes the NEW runner r1 from
+//	`loaded` while r1 is live and in use.  The next request loads r2: two live runners for one model; finish events are
+//	keyed by path, so `done` of r1's user decrements r2: r2 is closed under its user (witness 1) or its count wraps
+//	and neither r1 nor r2 is ever closed (witness 2).
+//
+// Expected on the pinned tree (without the guard fixes, e.g. /repo commit 2258da28d): the L2 kinds listed; expected
+// with the delete-by-identity guard (914ee336e): none.
 // (`grant_after_unload` needs a yield between needsReload and useLoadedRunner inside processPending; there is no
 // event-level reproduction of it with cpu/metal GPUs, so it has no script here.)
 var schedWitnesses = []struct{ name, script string }{
@@ -517,7 +562,32 @@ var schedWitnesses = []struct{ name, script string }{
 		"sched-trace 0 8 2 1 1 | submit 0 0 - | submit 0 0 - | done 0 | loaddone 0 0 | submit 0 1 - | done 1 | submit 0 0 - | loaddone 1 1 | advance 20 | loaddone 2 1 | done 2 | advance 20 | done 3 | advance 4000000 | advance 20"},
 }
 
-func TestVerifSchedWitness(t *testing.T) {
+func TestVerifSchedWitness(t *testing.T) { schedCorpus(t, "TestVerifSchedWitness", schedWitnesses) }
+
+// Scripts that wedge the scheduler independently of F12 (they still do with the two guard fixes in): found by the random
+// walk, shrunk by VERIF_SHRINK.  Not part of TestVerifSchedWitness (which is silent on a repaired tree).
+//
+//	lockorder_expireRunner: expireRunner takes loadedMu then refMu, processCompleted's expired case refMu then loadedMu.
+//	  Two explicit unloads (one parked behind a loading runner) and an eviction of the idle runner when the load ends:
+//	  processCompleted holds r0.refMu and waits for loadedMu, the second expireRunner holds loadedMu and waits for r0.refMu.
+//	lockorder_updateFreeSpace: same inversion with updateFreeSpace (loadedMu, then every runner's refMu); no unloads at
+//	  all: 2 metal GPUs, a failed reload whose expired event is being handled while a third model is fitted.
+//	queue_capacity: expiredCh has capacity OLLAMA_MAX_QUEUE; expireRunner sends on it holding loadedMu and refMu while
+//	  its only consumer needs refMu.
+var schedDeadlocks = []struct{ name, script string }{
+	{"lockorder_expireRunner", // c02-deadlock-lockorder
+		"sched-trace 2 8 2 1 1 | submit 0 0 S | loaddone 0 1 | submit 2 0 S | loaddone 1 1 | done 1 | submit 1 0 0 | submit 2 0 0 | done 0 | unload 1 | unload 0 | loaddone 2 1"},
+	{"lockorder_updateFreeSpace", // c02-deadlock-lockorder
+		"sched-trace 0 8 1 0 2 | submit 0 0 - | submit 1 1 - | loaddone 0 1 | done 0 | loaddone 1 1 | done 1 | submit 1 0 - | submit 0 1 - | submit 2 0 L | loaddone 2 0 | loaddone 3 1"},
+	{"queue_capacity", // c02-deadlock-queue
+		"sched-trace 0 1 1 1 1 | submit 0 0 L | unload 0 | unload 0 | loaddone 0 0"},
+}
+
+func TestVerifSchedDeadlockCorpus(t *testing.T) {
+	schedCorpus(t, "TestVerifSchedDeadlockCorpus", schedDeadlocks)
+}
+
+func schedCorpus(t *testing.T, testName string, corpus []struct{ name, script string }) {
 	if schedIsChild() {
 		schedChild(t)
 		return
@@ -529,17 +599,17 @@ func TestVerifSchedWitness(t *testing.T) {
 	out := zzverif.NewOut()
 	defer out.Close()
 	var jobs []schedJob
-	for _, w := range schedWitnesses {
+	for _, w := range corpus {
 		jobs = append(jobs, schedJob{script: w.script})
 	}
-	recs := schedRunJobs(t, "TestVerifSchedWitness", dir, jobs)
+	recs := schedRunJobs(t, testName, dir, jobs)
 	schedEmit(out, recs)
 	for i, rc := range recs {
 		var kinds []string
 		for _, l := range rc.l2 {
 			kinds = append(kinds, l.kind)
-			out.Count("witness_" + schedWitnesses[i].name + "_" + l.kind)
+			out.Count("witness_" + corpus[i].name + "_" + l.kind)
 		}
-		t.Logf("witness %s: L2 %v\n  %s", schedWitnesses[i].name, kinds, rc.line)
+		t.Logf("%s: L2 %v\n  %s", corpus[i].name, kinds, rc.line)
 	}
 }
